@@ -42,7 +42,7 @@ def main():
 
 
 def save_replay(prop, tag, payload):
-    p = lpv.replay_path(prop, tag)
+    p = lpv.replay_path(prop, re.sub(r"[^A-Za-z0-9_.-]", "_", tag))
     json.dump(payload, open(p, "w"), indent=1)
     return p
 
